@@ -118,9 +118,14 @@ def check_corpus(X, y, Q, tmpdir=None):
         try:
             f = os.path.join(tmpdir, "m.pbz")
             nb_scorer.save_naive_bayes(model, f)
-            loaded = nb_scorer.NaiveBayesScorer.from_model_file(f)._model
+            sc_loaded = nb_scorer.NaiveBayesScorer.from_model_file(f)
         except Exception as e:
             fails.append(("save-load-raises:" + type(e).__name__, repr(e), None))
+            sc_loaded = None
+        if sc_loaded is not None:
+            loaded = core.scorer_model(sc_loaded)
+            if loaded is None:
+                raise core.HarnessError("cannot find the model inside a loaded NaiveBayesScorer")
     for q in Q + X[:3]:
         try:
             qc = list(q)
